@@ -6,32 +6,32 @@ NOTE_COMMON = ("Trusted base: TLC 1.8 and the TLA+ specifications in /verif/spec
                "the documented rule texts, not from the code); the Python concretiser / projection in /verif/drivers; "
                "results hold within the stated bounds and on the validated traces only.")
 CHECKS = {
- "C05": dict(tech="TLC model checking of Lexer.tla (Tiling, LineColDecl, Total) over all class strings; every behaviour replayed into tokenize_program; recorded token streams validated by LexerTrace.tla",
+ "C05": dict(tech="TLC model checking of Lexer.tla (Tiling, LineColDecl, Total) over all class strings; every behaviour replayed into tokenize_program; recorded token streams validated by LexerTrace.tla and compared with the table `ironplcc tokenize` prints; identifier spans and diagnostic labels of the Grammar.tla / Unit.tla corpora",
              text="Exhaustive within bounds: every character-class string up to length 4 (quick) / 5-6 (thorough) over four alphabets is lexed by the specification and by the implementation and compared lexeme by lexeme (span, kind, line, column); token streams of repository sources, their trivia / invalid-character / truncation mutants (incl. OSCAT headers with LF and CRLF), token soup and random bytes are validated as behaviours of the position machine by TLC. Identifier spans of every Grammar.tla derivation, byte labels and published LSP ranges of every single-fault unit of Unit.tla (re-laid-out with multi-byte comments) against LabelTargets, syntax / lexical error labels of token mutants, and the terminal's line:col of check / echo / tokenize on the faulty files.",
              ref="DESIGN.md 3.1, 5/C05"),
  "C11": dict(tech="TLC model checking of Lsp.tla (CacheCoherent, PublishExactlyOnce); all notification histories enumerated by TLC and replayed into fresh `ironplcc lsp --stdio` processes against a fresh-server diagnostics table; CLI equality per document state; random long histories validated by LspTrace.tla",
              text="Exhaustive within bounds: every didOpen/didChange history up to length 3 (quick) / 4 (thorough) over 2 URIs x 5 texts is executed on the real server and compared frame by frame with the publishes the specification requires (document, version, content = function of the current document state as measured on fresh servers); the same contents are checked with `ironplcc check`; random histories up to length 40 are validated as behaviours of the specification by TLC. Workspace start-up (Boot action: every content of the workspace folder x histories up to length 2) and the positions clause (every single-fault unit of Unit.tla in random layouts: server and check report the same code, line, column).",
              ref="DESIGN.md 3.6, 5/C11"),
- "C12": dict(tech="TLC model checking of Lsp.tla safety + liveness (EventuallyAnswered under WF); all message sequences up to length 3 replayed into the real server; random interleavings up to length 60 validated by LspTrace.tla",
+ "C12": dict(tech="TLC model checking of Lsp.tla safety + liveness (EventuallyAnswered under WF; message kinds incl. didClose and requests / notifications whose params do not fit their method); all message sequences up to length 3 replayed into the real server; random interleavings up to length 60 validated by LspTrace.tla",
              text="Exhaustive within bounds over the message alphabet of the property (didOpen, didChange with 0/1/2 changes, semantic-token and unknown requests, unknown notifications, client responses, unopened and non-file URIs), each sequence closed by shutdown and exit: replies, their ids, their order and the exit status must be exactly the specification's reply queue.",
              ref="DESIGN.md 3.6, 5/C12"),
  "C15": dict(tech="TLC model checking of the semantic-token codec in Lexer.tla; every class-string document replayed through `ironplcc lsp --stdio` inside edit histories and decoded against the specification's highlighted lexemes and class table",
              text="Exhaustive within bounds at the lexical level: for every class string of the Lexer.tla configurations the server's response is decoded under the relative encoding and must be strictly increasing and equal (line, column, length, legend class) to the highlighted lexemes computed by the specification; invalid text must give a null result.",
              ref="DESIGN.md 3.1, 5/C15"),
- "C13": dict(tech="TLC model checking of Cli.tla (ExitOkDiagAgree, EchoTokenizeExit, DependsOnlyOnDenotation); every enumerated invocation run as a real ironplcc process and compared; relational comparison of invocations with equal denotation",
+ "C13": dict(tech="TLC model checking of Cli.tla (ExitOkDiagAgree, EchoTokenizeExit, DependsOnlyOnDenotation); every enumerated invocation run as a real ironplcc process and compared; relational comparison of invocations with equal denotation; random argument lists of 4-8 paths validated by CliTrace.tla (implementation -> specification)",
              text="Exhaustive within bounds: every argument sequence up to length 3 (quick) / 4 (thorough) over 9 files of all classes (two with names that differ in letter case only), 7 directories (incl. empty, with unreadable entry) and a missing path, for check / echo / tokenize, is executed; exit status, OK line and the set of (code, file) must equal the observation computed by the specification; directory vs file list, argument order and repetition are compared run against run.",
              ref="DESIGN.md 3.7, 5/C13"),
- "C14": dict(tech="TLC model checking of Cli.tla ReadDecode/EncodingTransparent over all encoding assignments; each replayed on a disk written in those encodings; exhaustive byte sweep in four lexical contexts; random binary files",
+ "C14": dict(tech="TLC model checking of Cli.tla ReadDecode/EncodingTransparent over all encoding assignments; each replayed on a disk written in those encodings; exhaustive byte sweep in four lexical contexts; random binary files; every workspace content x message history of Lsp.tla (MC_Lsp_encws) replayed into the language server with the workspace stored in each of the five encodings",
              text="Exhaustive within bounds: all 125 assignments of {UTF-8, UTF-8+BOM, UTF-16LE/BE+BOM, Windows-1252} to three files carrying non-ASCII text before a planted fault; verdict, codes and line:col must equal the specification's (encoding-free) observation and each other. Every byte value 0x00-0xFF in a comment, a string, between tokens and inside an identifier, plus random binary files: no crash, contract holds, positions inside the decoded text, neutral characters keep the verdict. Size clause: the same faulty program padded so that a run of 2-, 3- and 4-byte characters crosses byte offsets 512 ... 8192 (thorough: 256 ... 65536) at eight alignments in all five encodings.",
              ref="DESIGN.md 3.7, 5/C14",
              note="Encoders are Python codecs (trusted)."),
- "C01": dict(tech="TLC model checking of Grammar.tla (derivation machine over the Annex-B reference grammar: OneValue, NothingDropped, Terminates, PrecedenceShape); every derivation replayed into parse_program and the projected library compared with the abstract syntax computed by the specification",
+ "C01": dict(tech="TLC model checking of Grammar.tla (derivation machine over the Annex-B reference grammar: OneValue, NothingDropped, Terminates, PrecedenceShape); every derivation replayed into parse_program and the projected library compared with the abstract syntax computed by the specification; sweep configurations rotate the literal pools so that every literal form stands in every literal position (coverage obligation on the pools)",
              text="Exhaustive within bounds: every derivation of the reference grammar per area (expressions, statements, TYPE forms, VAR blocks x qualifiers x initialisers, FUNCTION / FUNCTION_BLOCK / PROGRAM, SFC, CONFIGURATION, libraries) within the fuel bound is enumerated by TLC together with the abstract syntax it denotes (precedence and associativity by construction of the stratified grammar); each is spelled canonically and with random layout, parsed, projected and compared node by node.",
              ref="DESIGN.md 3.2, 5/C01"),
- "C04": dict(tech="Grammar.tla corpus -> token-level mutants, token sequences, nesting shapes, extreme literals (+ seeded soup / bytes) run through lex, parse, analyse, render under catch_unwind with a CPU-time budget, and through the ironplcc binary",
+ "C04": dict(tech="Grammar.tla corpus -> token-level mutants, token sequences, nesting shapes, extreme literals, the Unit.tla corpus and the deep / wide declaration graphs of Recursion.tla (each also with every declaration twice) (+ seeded soup / bytes) run through lex, parse, analyse, render under catch_unwind with a CPU-time budget, and through the ironplcc binary",
              text="The specification supplies the structured input space (derivations, their single-token mutants, token-class sequences, literal positions); the check runs every stage in-process under catch_unwind on an 8 MiB stack with a CPU-time budget and a sample through the real binary; a panic, abort, stack overflow or exceeded budget is a violation. Also: every literal of Literal.tla in three contexts, and long lexemes (40 - 5000 bytes, multi-byte characters at every alignment) alone, next to every token class and in place of every token of the small derivations.",
              ref="DESIGN.md 5/C04", note="'Arbitrary bytes' is a seeded random sample, not an enumeration."),
- "C08": dict(tech="relational replay of the Grammar.tla corpus: canonical vs re-spelled text (single-site keyword case, all-site random case and trivia, END_IF without semicolon) must project to the same library and the same analysis codes",
+ "C08": dict(tech="relational replay of the Grammar.tla corpus: canonical vs re-spelled text (single-site keyword case, all-site random case and trivia, END_IF without semicolon) must project to the same library and the same analysis codes; the Unit.tla corpus with alphabet-covering identifiers and random case per occurrence must keep its verdict and codes",
              text="Every keyword / literal prefix / duration unit of the corpus is varied alone (lower, upper, mixed case); every derivation is re-spelled at all sites with random case per keyword and identifier occurrence and random trivia (blanks, tabs, LF, CRLF, FF, single- and multi-line, nested-looking, non-ASCII comments) at every inter-token position; END_IF is written without its semicolon.",
              ref="DESIGN.md 3.2, 5/C08"),
  "C10": dict(tech="replay of the Grammar.tla corpus: parse, render, re-parse, compare (PartialEq and projected abstract syntax), re-render (fixed point); sample through `ironplcc echo | ironplcc echo`",
@@ -40,7 +40,7 @@ CHECKS = {
  "C09": dict(tech="TLC model checking of Literal.tla (structured literal space with exact BigNat values, ValueTwoWays); every literal replayed into parse_program and the ConstantKind / AddressAssignment node compared with the specified value and expectation class",
              text="Exhaustive over the structured literal space: bases 2/8/10/16 x magnitudes 0 .. 2^128 x signs x type prefixes x underscore patterns; reals (mantissa / fraction / exponent forms, overflow); durations of every unit with boundary and fractional values and compound forms; dates / times of day / date-and-times with every field at min, max, max+1 incl. leap years; strings incl. $-escapes; direct addresses (prefix x size x 1-3 multi-digit components incl. > 2^32). Accepted literals must have exactly the specified value; ill-formed or unrepresentable ones must be rejected with a syntax diagnostic.",
              ref="DESIGN.md 3.3, 5/C09", note="Correct rounding of REAL to binary64 is evaluated with Python fractions from the exact rational the specification gives."),
- "C02": dict(tech="TLC model checking of Unit.tla (every documented rule as a predicate; BaseValid, GrowPreservesValid, PlantSound, SingleFaultIsSingle); every enumerated unit (base, growths, planted faults at every site) made concrete and analysed by stages::analyze / Project::semantic; verdict and problem codes compared with Violated(u) / Code(r)",
+ "C02": dict(tech="TLC model checking of Unit.tla (every documented rule as a predicate; BaseValid, GrowPreservesValid, PlantSound, SingleFaultIsSingle); every enumerated unit (base, growths, planted faults at every site) made concrete and analysed by stages::analyze / Project::semantic; verdict and problem codes compared with Violated(u) / Code(r); the symbol table operations of every analysis validated by ScopeTrace.tla against Scope.tla (implementation -> specification)",
              text="Exhaustive within bounds: the base unit, every validity-preserving growth and every planted fault (each rule's documented Fails shape at every applicable site: POU x variable class x statement role x control-structure wrapper ...), up to two edits; expectations are computed by evaluating the rule predicates on the resulting unit. Valid units must be accepted, single-fault units rejected with the rule's published code, multi-fault units rejected.",
              ref="DESIGN.md 3.4, 5/C02"),
  "C03": dict(tech="TLC model checking of Pipeline.tla (NoMasking, OrderIndependent, NothingLostBySort) per fault scenario over every arrangement of the declarations into files; the named deviations CollapseEqualNames / DropParseDiagsWhenAnalysisOk are shown to violate NoMasking; every arrangement and every file subset containing the fault analysed for real (analyze, Project::semantic twice, sampled `ironplcc check`)",
@@ -49,7 +49,7 @@ CHECKS = {
  "C06": dict(tech="TLC model checking of Pipeline.tla (OrderIndependent: verdict is a function of the set of declarations) over every permutation x partition x file order; each arrangement analysed with analyze() in exactly that library order, Project::semantic twice, and repeated fresh `ironplcc check` processes with permuted arguments",
              text="Exhaustive within bounds for sets of up to 5 declarations (valid sets, sets with a missing provider, single context-free faults): one verdict per set, and for single-fault sets one set of (code, declaration, labelled lexeme) across all arrangements; eight-declaration sets sampled; fresh processes give fresh hash seeds.",
              ref="DESIGN.md 3.5, 5/C06"),
- "C07": dict(tech="TLC enumeration of all digraphs (Recursion.tla; Cyclic via transitive closure cross-checked against the topological-numbering definition); each graph realised as function-block instance graph, structure graph, structure+alias graph and enumeration-alias chain and analysed; recursion code reported <=> Cyclic(E)",
+ "C07": dict(tech="TLC enumeration of all digraphs (Recursion.tla; Cyclic via transitive closure cross-checked against the topological-numbering definition); each graph realised as function-block instance graph, structure graph, structure+alias graph, mixed function block / structure graph and enumeration-alias chain and analysed; deep / wide families (chain, ladder, fan, dense; 16 and 40 nodes) from the same module; recursion code reported <=> Cyclic(E)",
              text="Exhaustive for all digraphs on <= 3 nodes and all acyclic 4-node digraphs, 1/16 (quick) or all (thorough) of the cyclic 4-node digraphs, plus 440 random graphs on 8 and 12 nodes drawn by the same module; 3-4 realisations each.",
              ref="DESIGN.md 3.4, 5/C07"),
 }
